@@ -199,6 +199,18 @@ CLAIMED["C11"] = dict(
               "table agreement, CFG must-pass-through",
     design="3/C11")
 
+CLAIMED["C06"] = dict(
+    text="Decides the rejection clause and structural parts of the DSL 2.0 compiler: explicit-raise escape analysis of "
+         "namespace_to_flowir over dsl.py (only DSLInvalidError leaves it; one value-infeasible edge frozen with its reason "
+         "and re-checked) and its conversion in DSLExperimentConfiguration; every collected error carries a location; "
+         "parameter substitution by match span with the inserted text skipped; component names numbered over the ordered "
+         "components and checked for uniqueness before use (a genuine collision defect was repaired). That the "
+         "producer/consumer relation equals the flattened reference relation for all namespaces and that the result is "
+         "accepted by the FlowIR validator need execution and are not decided.",
+    technique="explicit-raise escape analysis over a name-resolved call graph, error-collection lint, SUB, naming-loop "
+              "uniqueness check",
+    design="3/C06")
+
 NOT_APPLICABLE = {
     "C20": "arithmetic over floating-point stage weights (sums, int(w*1000) truncation, fallback split) for every "
            "stage count: no structural clause is a necessary condition; needs numeric exploration or a solver, i.e. "
